@@ -25,3 +25,14 @@ package json
 //@ func init$lit1$lit1
 //@   loop 2 step typed: out.err == nil ==> len(out.record.Values) == len(job.fields) && forall(q, 0, len(job.fields), matches(out.record.Values[q], job.fields[q].Type))
 //@   loop 3 invariant cells: 0 <= $k && $k <= len(values) && len(values) == len(job.fields) && forall(q, 0, $k, matches(values[q], job.fields[q].Type))
+
+// C06/C23: the consumer loop of the JSON datasource, for every arrival order of parsed batches and of the reader's
+// completion (select = any case): a parse error of a line and an error reported by the line reader (an over-long
+// line, an I/O error) fail the datasource — in particular a reader error is never followed by another round of
+// the loop —, and — unless the query's context was cancelled (ctx.Err() is then returned) — the datasource returns nil only after
+// the reader has reported successful completion.
+//@ func (*DatasourceExecuting).Run
+//@   loop 1 invariant count: len(OUT) >= old(len(OUT)) && len(OUTM) == old(len(OUTM))
+//@   loop 1 step readerfailed: selected() == 1 ==> readerErr == nil && fileReaderIsDone
+//@   loop 2 step parsed: out.err == nil
+//@   ensures complete: result == nil && calls(Err) == 0 ==> fileReaderIsDone
